@@ -1,7 +1,9 @@
 ----------------------------- MODULE BatchTrace -----------------------------
 (* I->S validation for C11: every observation recorded by `dlv batch` from the real darklua    *)
 (* (tree before, tree after the run, after a second run, after a run on a tree created in      *)
-(* reverse order, after a run on the tree without the faulty files; error lists; panics) is    *)
+(* reverse order, after a run on the tree without the faulty files; error lists; panics; for   *)
+(* the .luaurc configurations also: after runs with the sources registered in explicit orders,  *)
+(* after a run on each healthy file alone, what each output shows of the alias resolution) is   *)
 (* judged against the clauses of Batch.tla.  One VERDICT line per observation, one boolean per *)
 (* clause, plus what identifies a violation (first offending path, whether the known deviation *)
 (* F-C11-a explains every offender of the clause).                                             *)
@@ -38,6 +40,28 @@ RenderOK(o, c, t0) ==
   /\ {p \in DOMAIN t0 : t0[p].k = "f"} = {r.p : r \in {x \in InitialTree(c) : x.k = "f"}}
   /\ o.world = "fs" => \A r \in {x \in InitialTree(c) : x.k = "d"} : At(t0, r.p).k = "d"
 
+\* ---- per-directory context (.luaurc configurations; the lists are empty for the other configurations)
+FilesOf(t) == {p \in DOMAIN t : t[p].k = "f"}
+\* the driver did what the clauses presuppose: the orders cover every ordered pair of files, every healthy file was
+\* processed alone on the tree the model defines, every produced output was probed
+HarnessOK(o, c, t0, t1) ==
+  IF ~Rc(c) THEN Len(o.orders) = 0 /\ Len(o.alone) = 0 /\ Len(o.ev) = 0
+  ELSE
+    /\ Work(c) # {} => OrdersCover(c, [n \in 1..Len(o.orders) |-> o.orders[n].ord])
+    /\ {o.alone[n].e : n \in 1..Len(o.alone)} = HealthySet(c) /\ Len(o.alone) = Cardinality(HealthySet(c))
+    /\ \A n \in 1..Len(o.alone) :
+         FilesOf(TreeOf(o.alone[n].t0)) = {r.p : r \in {x \in AloneTree(c, o.alone[n].e) : x.k = "f"}}
+    /\ \A x \in HealthySet(c) : At(t1, Dest(c, x)).k = "f" => \E n \in 1..Len(o.ev) : o.ev[n].e = x
+\* paths that differ after some explicit-order run
+OrderOff(o, c, t1) == UNION {OrderOffenders(c, t1, TreeOf(o.orders[n].t1)) : n \in 1..Len(o.orders)}
+\* healthy files whose output differs from the one they get alone
+AloneOff(o, c, t0, t1) == {o.alone[n].e : n \in {m \in 1..Len(o.alone) : AloneOffends(c, o.alone[m].e, t0, t1, TreeOf(o.alone[m].t1))}}
+\* produced outputs that do not refer to the m1 of the nearest .luaurc
+NearestOff(o, c, t0, t1) ==
+  IF ~Rc(c) THEN {}
+  ELSE {x \in HealthySet(c) : Produced(c, x, t0, t1) /\ ~\E n \in 1..Len(o.ev) : o.ev[n].e = x /\ NearestOK(c, x, o.ev[n])}
+PanicIn(l) == \E n \in 1..Len(l) : l[n].panic # ""
+
 Judge == LET o == Obs[i] IN
   LET c == CaseOf(o) IN
   LET t0 == TreeOf(o.t0) IN
@@ -52,12 +76,20 @@ Judge == LET o == Obs[i] IN
   LET rpt  == ReportedOffenders(c, o.main.errs) IN
   LET iso  == IsolationOffenders(c, t0, t1, r1) IN
   LET det  == DetOffenders(c, t1, u1) \cup DetOffenders(c, t1, a1) IN
-  LET pan  == o.main.panic # "" \/ o.rep.panic # "" \/ o.again.panic # "" \/ o.ref.panic # "" IN
+  LET ord  == OrderOff(o, c, t1) IN
+  LET aln  == AloneOff(o, c, t0, t1) IN
+  LET nea  == NearestOff(o, c, t0, t1) IN
+  LET pan  == o.main.panic # "" \/ o.rep.panic # "" \/ o.again.panic # "" \/ o.ref.panic # "" \/ PanicIn(o.orders) \/ PanicIn(o.alone) IN
   PrintT("VERDICT " \o ToJson([
      id |-> o.id, world |-> o.world,
-     wellformed |-> WellFormedCase(c), render_ok |-> RenderOK(o, c, t0),
+     wellformed |-> WellFormedCase(c), render_ok |-> RenderOK(o, c, t0), harness_ok |-> HarnessOK(o, c, t0, t1),
      onetoone |-> o121 = {}, nothing_for_faulty |-> nff = {}, inputs_untouched |-> inp = {}, nothing_else |-> els = {},
      reported |-> rpt = {}, isolation |-> iso = {}, deterministic |-> det = {}, no_panic |-> ~pan,
+     order_independent |-> ord = {}, same_as_alone |-> aln = {}, nearest_luaurc |-> nea = {},
+     off_order_independent |-> FirstPath(ord), x_order_independent |-> FALSE,
+     off_same_as_alone |-> EntryPath(c, FirstEntry(c, aln)), x_same_as_alone |-> FALSE,
+     off_nearest_luaurc |-> EntryPath(c, FirstEntry(c, nea)), x_nearest_luaurc |-> FALSE,
+     rc |-> Rc(c), norders |-> Len(o.orders), nalone |-> Len(o.alone), nprobed |-> Len(o.ev),
      off_onetoone |-> EntryPath(c, FirstEntry(c, o121)), x_onetoone |-> AllExplained(c, o121),
      off_nothing_for_faulty |-> EntryPath(c, FirstEntry(c, nff)), x_nothing_for_faulty |-> FALSE,
      off_inputs_untouched |-> FirstPath(inp), x_inputs_untouched |-> FALSE,
